@@ -533,6 +533,11 @@ func (r *Reader) Markdown() (string, error) {
 
 // MarkdownWithOptions returns workbook content as Markdown with options.
 func (r *Reader) MarkdownWithOptions(opts ExtractOptions) (string, error) {
+	return r.markdown(opts, 2)
+}
+
+// markdown renders the sheets; nameLevel is the heading level of sheet names.
+func (r *Reader) markdown(opts ExtractOptions, nameLevel int) (string, error) {
 	sheets := r.sheets
 	if len(opts.Sheets) > 0 {
 		sheets = make([]*Sheet, 0, len(opts.Sheets))
@@ -551,7 +556,8 @@ func (r *Reader) MarkdownWithOptions(opts ExtractOptions) (string, error) {
 		}
 
 		// Sheet name as heading
-		result.WriteString("## ")
+		result.WriteString(strings.Repeat("#", nameLevel))
+		result.WriteString(" ")
 		result.WriteString(sheet.Name)
 		result.WriteString("\n\n")
 
@@ -638,8 +644,8 @@ func (r *Reader) MarkdownWithRAGOptions(extractOpts ExtractOptions, mdOpts rag.M
 		result.WriteString("\n---\n\n")
 	}
 
-	// Generate main content
-	md, err := r.MarkdownWithOptions(extractOpts)
+	// Generate main content (sheet names are level-2 headings)
+	md, err := r.markdown(extractOpts, mdOpts.AdjustHeadingLevel(2))
 	if err != nil {
 		return "", err
 	}
